@@ -125,14 +125,27 @@ def bob_sweep(args):
     except Exception:  # noqa: BLE001
         arr = np.full(hist.shape, np.nan)
     n = len(gl)
+    # a work buffer: the same array object is refilled in place with the next time step's GOR values and handed over again
+    buf = np.array(gl, dtype=float)
+    try:
+        oil.db_o_dgor_Standing(T, api, gg, buf)
+        buf[:] = np.array(gl, dtype=float) * 1.07 + 3.0
+        arr2 = np.asarray(oil.db_o_dgor_Standing(T, api, gg, buf), dtype=float)
+        if arr2.shape != buf.shape:
+            arr2 = np.full(buf.shape, np.nan)
+    except Exception:  # noqa: BLE001
+        arr2 = np.full(n, np.nan)
     for j, r in enumerate(gl):
         d = float(oil.db_o_dgor_Standing(T, api, gg, r))
         _v, d_ad = derivative(lambda x: oil.b_o_bubblepoint_Standing(T, api, gg, x), r)
         in_hist = [float(arr[n - 1 - j])] + ([float(arr[n - 1 + j])] if j > 0 else [])
-        worst = max([rel15(d, d_ad)] + [rel15(v, d_ad) for v in in_hist])
+        r2 = float(r * 1.07 + 3.0)
+        _v2, d2_ad = derivative(lambda x: oil.b_o_bubblepoint_Standing(T, api, gg, x), r2)
+        worst = max([rel15(d, d_ad)] + [rel15(v, d_ad) for v in in_hist] + [rel15(float(arr2[j]), d2_ad)])
         points.append({"x": quant.q(r, *GWIN), "side": "none", "agree": {"dbo_ad": worst},
                        "flags": {"finite": math.isfinite(d)},
-                       "raw": {"gor": r, "db_o_dgor": d, "dBo_dRs_AD": d_ad, "in_array_history": in_hist}})
+                       "raw": {"gor": r, "db_o_dgor": d, "dBo_dRs_AD": d_ad, "in_array_history": in_hist,
+                               "refilled_buffer": {"gor": r2, "db_o_dgor": float(arr2[j]), "dBo_dRs_AD": d2_ad}}})
     return {"profile": "bob", "meta": meta, "points": points}
 
 
